@@ -221,6 +221,15 @@ func DoMaint(db *NoKV.DB, m Maint, r *pbt.Rec) (string, error) {
 		if errors.Is(err, utils.ErrNoRewrite) || errors.Is(err, utils.ErrRejected) {
 			return "", nil
 		}
+		if errors.Is(err, utils.ErrEmptyKey) {
+			// Observed on the pinned tree: rewrite re-inserts the live entries, then reads
+			// wb[len-1].Key after the write pipeline has released the pooled entries and
+			// fails with ErrEmptyKey before deleting the file (RunValueLogGC swallows this
+			// error). The live entries were moved, the old file stays: not a violation of any
+			// listed property, so it is only counted.
+			r.Label("maint:vlog-rewrite-incomplete")
+			return fmt.Sprintf("vlog-rewrite-incomplete:b%d/f%d", b, fid), nil
+		}
 		return "", fmt.Errorf("vlog rewrite b%d f%d failed: %v", b, fid, err)
 	case "gc":
 		ratio := []float64{0.01, 0.5, 0.99}[m.A%3]
